@@ -187,7 +187,8 @@ class RequestHandlerBase(MethodView):
 
     def reset_error_counter(self, usage: str, code: int) -> None:
         key = f'error-{usage}-{code:06d}'
-        flask.session[key] = None
+        # (not None: increment_error_counter adds one to the stored value)
+        flask.session[key] = 0
 
 
 class HTMLHandlerBase(RequestHandlerBase):
